@@ -1,3 +1,187 @@
-(* C03/Properties.v *)
+(* C03/Properties.v — property theorems only: statement, `exact`, Print Assumptions,
+   Examples (hypotheses are satisfiable) and _refuted witnesses. *)
 From Coq Require Import ZArith List Bool.
 From C03 Require Import Generated Model Spec Proofs.
+Import ListNotations.
+Open Scope Z_scope.
+
+(* The model hard-wires what the translator reads off _eval_fn: three _resolve_fn passes and
+   argument evaluation (self.call(q)) before the push.  Stops type-checking when that changes. *)
+Theorem C03_model_shape_matches_source :
+  resolve_passes = 3%nat /\ args_evaluated_before_push = true.
+Proof. exact (conj eq_refl eq_refl). Qed.
+Print Assumptions C03_model_shape_matches_source.
+
+(* T3.frames — for EVERY program e of the modelled language, every fuel and EVERY outcome r
+   (a value or an error raised at any position, at any nesting depth): the context stack has
+   its old depth, and the frame at every level j holds for every variable v the value it held
+   before, unless (v, j) is in the list w of writes that KlongContext.__setitem__ performed at
+   that level during the evaluation (`::` on a variable that exists there, a new variable or
+   the self-binding of an undefined symbol in the innermost frame of the moment).  Consequently a
+   variable that was never written reads as before.  Parameters, .f and declared locals live in
+   a frame above the caller's levels, so they are gone.  Holds because the pop sits in `finally`
+   (regenerated flag). *)
+Theorem C03_frames : forall fm fuel st e r st',
+  eval eval_fn_pop_in_finally fm fuel st e = (r, st') ->
+  length (frames st') = length (frames st) /\
+  exists w, log st' = w ++ log st /\
+    (forall v j, ~ In (v, j) w -> lvl (frames st') j v = lvl (frames st) j v) /\
+    (forall v, (forall j, ~ In (v, j) w) -> ctx_lookup v (frames st') = ctx_lookup v (frames st)).
+Proof.
+  exact (eq_ind_r (fun f => forall fm fuel st e r st', eval f fm fuel st e = (r, st') ->
+            length (frames st') = length (frames st) /\
+            exists w, log st' = w ++ log st /\
+              (forall v j, ~ In (v, j) w -> lvl (frames st') j v = lvl (frames st) j v) /\
+              (forall v, (forall j, ~ In (v, j) w) -> ctx_lookup v (frames st') = ctx_lookup v (frames st)))
+           frames_restored (eq_refl : eval_fn_pop_in_finally = true)).
+Qed.
+Print Assumptions C03_frames.
+
+(* T3.resume (observable part): an evaluation that wrote nothing — e.g. a call that failed before
+   any assignment — leaves every variable reading as if it had not happened. *)
+Theorem C03_failed_call_invisible : forall fm fuel st e r st',
+  eval eval_fn_pop_in_finally fm fuel st e = (r, st') -> log st' = log st ->
+  length (frames st') = length (frames st) /\ forall v, ctx_lookup v (frames st') = ctx_lookup v (frames st).
+Proof.
+  exact (eq_ind_r (fun f => forall fm fuel st e r st', eval f fm fuel st e = (r, st') -> log st' = log st ->
+            length (frames st') = length (frames st) /\ forall v, ctx_lookup v (frames st') = ctx_lookup v (frames st))
+           (fun fm fuel st e r st' H HL =>
+              conj (proj1 (frames_restored fm fuel st e r st' H)) (frames_untouched fm fuel st e r st' H HL))
+           (eq_refl : eval_fn_pop_in_finally = true)).
+Qed.
+Print Assumptions C03_failed_call_invisible.
+
+(* without the `finally` the statement is false: a call whose body raises leaves its frame behind *)
+Theorem C03_frames_refuted_without_finally :
+  exists e r st', eval false true 5 init_state e = (r, st') /\
+                  length (frames st') <> length (frames init_state).
+Proof.
+  exists (TFn true (TOp2 Add (TInt 1) (TStr [97])) (Some []) 0).
+  eexists. eexists. split; [vm_compute; reflexivity|]. cbn. discriminate.
+Qed.
+
+(* Non-vacuity of T3.frames: three nested calls with locals; the innermost raises after a
+   deliberate assignment to the existing global c.  Depth is restored, a (shadowed by a local) and
+   b keep their values, c has changed and (c, 0) is logged. *)
+Example C03_frames_example :
+  let nA := 10 in let nB := 11 in let nC := 12 in let nP := 13 in let nQ := 14 in
+  let q := TFn false (TSeq [TArr [TSym nA]; TOp2 Define (TSym nA) (TSym nX);
+                            TOp2 Define (TSym nC) (TOp2 Add (TSym nC) (TInt 1));
+                            TOp2 Add (TInt 1) (TStr [97])]) None 1 in
+  let p := TFn false (TSeq [TArr [TSym nB]; TOp2 Define (TSym nB) (TInt 0);
+                            TFn true (TSym nQ) (Some [TSym nX]) 1]) None 1 in
+  let st := mk_state [[(nA, TInt 1); (nB, TArr [TInt 1; TInt 2]); (nC, TInt 0); (nP, p); (nQ, q)]] [] in
+  let '(r, st') := eval true true 30 st (TFn true (TSym nP) (Some [TInt 5]) 1) in
+  r = Err EType /\ length (frames st') = 1%nat /\ log st' = [(nC, 0%nat); (nA, 2%nat); (nB, 1%nat)] /\
+  ctx_lookup nA (frames st') = Some (TInt 1) /\ ctx_lookup nC (frames st') = Some (TInt 1).
+Proof. vm_compute. repeat split; reflexivity. Qed.
+
+(* T3.merge — merge_projections, as the regenerated loop skeleton has it, IS positional hole
+   filling: any arity, any number of further argument lists, any hole pattern. *)
+Theorem C03_merge : forall base fills,
+  existsb is_none base = true -> fills <> [] ->
+  merge_projections merge_restarts_per_fill (Some base :: map Some fills) = MArr (fill_all base fills).
+Proof.
+  exact (eq_ind_r (fun f => forall base fills, existsb is_none base = true -> fills <> [] ->
+            merge_projections f (Some base :: map Some fills) = MArr (fill_all base fills))
+           merge_fill_all (eq_refl : merge_restarts_per_fill = true)).
+Qed.
+Print Assumptions C03_merge.
+
+(* what positional filling means, entry by entry: the i-th entry of the result is the old entry,
+   or, for a hole, the entry of `fill` whose index is the number of holes before position i *)
+Theorem C03_fill_positional : forall fill base i,
+  nth i (fill_from 0 base fill) TNone =
+    if is_none (nth i base TNone) && (i <? length base)%nat
+    then nth (length (filter is_none (firstn i base))) fill TNone
+    else nth i base TNone.
+Proof. exact (fun fill base i => fill_from_nth fill base 0 i). Qed.
+Print Assumptions C03_fill_positional.
+
+(* the loops of the pinned tree (position carried over to the next argument list, holes of an
+   argument list skipped after a store) do NOT satisfy it: f(1;;) then (;2) then (3) *)
+Theorem C03_merge_pinned_refuted :
+  exists base fills, existsb is_none base = true /\ fills <> [] /\
+    merge_projections false (Some base :: map Some fills) <> MArr (fill_all base fills).
+Proof.
+  exists [TInt 1; TNone; TNone], [[TNone; TInt 2]; [TInt 3]].
+  split; [reflexivity|]. split; [discriminate|]. vm_compute. discriminate.
+Qed.
+
+Example C03_merge_example :
+  merge_projections true [Some [TInt 1; TNone; TNone]; Some [TNone; TInt 2]; Some [TInt 3]]
+  = MArr [TInt 1; TInt 3; TInt 2].
+Proof. reflexivity. Qed.
+
+(* T3.cond — a conditional evaluates its condition, then exactly the branch selected by Klong
+   truth; the other branch is not evaluated at all (it can be replaced by anything, including a
+   diverging or raising program, without changing result or state). *)
+Theorem C03_cond_selects : forall fin fm fuel st c a b q st1,
+  call fin fm fuel st c = (Ok q, st1) ->
+  (truthy q = true -> forall b', eval fin fm (S fuel) st (TCond c a b') = call fin fm fuel st1 a) /\
+  (truthy q = false -> forall a', eval fin fm (S fuel) st (TCond c a' b) = call fin fm fuel st1 b).
+Proof. exact cond_selects. Qed.
+Print Assumptions C03_cond_selects.
+
+(* Klong truth: exactly 0, [] and "" are false (TSeq [] is Python's empty list, the empty program) *)
+Theorem C03_cond_truth : forall q,
+  truthy q = false <-> (q = TInt 0 \/ q = TArr [] \/ q = TStr [] \/ q = TSeq []).
+Proof. exact truthy_false_iff. Qed.
+Print Assumptions C03_cond_truth.
+
+Example C03_cond_example :
+  fst (eval true true 9 init_state (TCond (TStr []) (TOp2 Add (TInt 1) (TStr [97])) (TInt 2))) = Ok (TInt 2) /\
+  fst (eval true true 9 init_state (TCond (TArr [TInt 0]) (TInt 1) (TOp2 Add (TInt 1) (TStr [97])))) = Ok (TInt 1).
+Proof. vm_compute. split; reflexivity. Qed.
+
+(* T3.subst, part 1 — all call forms enter the body b in the same way (`enter`: evaluate the
+   arguments left to right in the caller's context, push x y z .f, run b, pop):
+   the direct call {b}(args), the call g(args) through a variable, g@[vals], and .f(args). *)
+Theorem C03_call_forms : forall fin fm fuel st b args n,
+  op_rooted b = true -> existsb is_none args = false -> (n <= length args)%nat ->
+  eval fin fm (S fuel) st (TFn true b (Some args) n) = enter fin fm fuel st b args /\
+  (forall g c0 n', (0 < n')%nat -> is_reserved g = false -> ctx_lookup g (frames st) = Some (TFn c0 b None n) ->
+     eval fin fm (S fuel) st (TFn true (TSym g) (Some args) n') = enter fin fm fuel st b args) /\
+  (forall g c0, ctx_lookup g (frames st) = Some (TFn c0 b None n) ->
+     eval fin fm (S (S fuel)) st (TOp2 At (TSym g) (TArr args)) = enter fin fm fuel st b args) /\
+  (ctx_lookup nDotF (frames st) = Some b ->
+     eval fin fm (S fuel) st (TFn true (TSym nDotF) (Some args) n) = enter fin fm fuel st b args).
+Proof.
+  exact (fun fin fm fuel st b args n Hb Hh Hn =>
+    conj (direct_call fin fm fuel st b args n Hb Hh Hn)
+   (conj (fun g c0 n' Hp Hg Hl => var_call fin fm fuel st g c0 b args n n' Hb Hh Hn Hp Hg Hl)
+   (conj (fun g c0 Hl => at_call fin fm fuel st g c0 b args n Hb Hh Hn Hl)
+         (fun Hl => dotf_call fin fm fuel st b args n Hb Hh Hn Hl)))).
+Qed.
+Print Assumptions C03_call_forms.
+
+(* T3.subst, part 2 — entering a body of the closed pure grammar (x y z, globals, literals,
+   + - * , # = <, conditionals) with arguments that evaluated to data values vs gives the value of
+   the body with x y z textually replaced by vs, evaluated in the caller's context; the caller's
+   context is as the argument evaluation left it. *)
+Theorem C03_subst : forall fm fuel st b args vs st1 k,
+  pure b -> eval_args (eval eval_fn_pop_in_finally fm fuel) st (firstn 3 args) = (Some vs, k, st1) ->
+  (forall v, In v vs -> self_eval v = true) ->
+  names_bound (combine [nX; nY; nZ] vs) (frames st1) b ->
+  enter eval_fn_pop_in_finally fm fuel st b args =
+    (fst (eval eval_fn_pop_in_finally fm fuel st1 (subst (combine [nX; nY; nZ] vs) b)), st1).
+Proof.
+  exact (eq_ind_r (fun f => forall fm fuel st b args vs st1 k,
+            pure b -> eval_args (eval f fm fuel) st (firstn 3 args) = (Some vs, k, st1) ->
+            (forall v, In v vs -> self_eval v = true) ->
+            names_bound (combine [nX; nY; nZ] vs) (frames st1) b ->
+            enter f fm fuel st b args = (fst (eval f fm fuel st1 (subst (combine [nX; nY; nZ] vs) b)), st1))
+           enter_is_subst (eq_refl : eval_fn_pop_in_finally = true)).
+Qed.
+Print Assumptions C03_subst.
+
+(* Non-vacuity of T3.subst: {:[x<y;x+a;y*2]}(3;1+4) with the global a = 10 *)
+Example C03_subst_example :
+  let nA := 10 in
+  let b := TCond (TOp2 Lt (TSym nX) (TSym nY)) (TOp2 Add (TSym nX) (TSym nA)) (TOp2 Mul (TSym nY) (TInt 2)) in
+  let st := mk_state [[(nA, TInt 10)]] [] in
+  let args := [TInt 3; TOp2 Add (TInt 1) (TInt 4)] in
+  eval true true 21 st (TFn true b (Some args) 2) = (Ok (TInt 13), st) /\
+  eval_args (eval true true 20) st (firstn 3 args) = (Some [TInt 3; TInt 5], EType, st) /\
+  eval true true 20 st (subst (combine [nX; nY; nZ] [TInt 3; TInt 5]) b) = (Ok (TInt 13), st).
+Proof. vm_compute. repeat split; reflexivity. Qed.
